@@ -3,6 +3,7 @@
 from __future__ import annotations
 
 import asyncio
+import collections.abc
 import json
 import random
 from typing import Any
@@ -19,7 +20,9 @@ TECHNIQUE = (
     "transport's wire log (bytes written, raw bytes/faults delivered, order) is compared offline with the scan_result rows read "
     "back with the sqlite3 module after DBHandler.disconnect(), together with gallia's 'Could not log messages to database' warnings; "
     "fault injection into the writer task (seeded 'database is locked' failures of INSERTs via a wrapper around the aiosqlite "
-    "connection's execute); runs of a harness UDSScanner through the real entry_point()/setup()/teardown() against an in-process ECU"
+    "connection's execute); runs of a harness UDSScanner through the real entry_point()/setup()/teardown() against an in-process ECU; "
+    "systematic cancellation: every task of a clock-free multi-task history (callers and the real cyclic tester present worker on one ECU object) "
+    "is driven through a coroutine wrapper that counts its suspension points, and the history is re-run with one task cancelled at each of them"
 )
 LEVEL_TEXT = (
     "Exploration: generated histories of 1..25 exchanges (every request kind of the codec generators, raw requests, replies of every "
@@ -31,7 +34,15 @@ LEVEL_TEXT = (
     "immediately, after a few scheduling points, or after the writer has drained. A fourth runs a UDSScanner subclass that switches implicit "
     "logging off (twin: leaves it on) in its constructor through entry_point() with setup-phase traffic (ping, ECUReset, properties "
     "requests), toggles logging in main() and compares scan_result with the transport's log of what was on the wire under which "
-    "setting. Held = every row set read back matched its wire log."
+    "setting. A fifth (concurrent users with cancellation, no clock involved) lets 2..4 tasks - callers and, in half of the histories, the real "
+    "cyclic tester present worker with interval 0 - use one ECU object with exchanges of different durations (writes and reads that take 0..3 "
+    "scheduling points, ResponsePending chains, negative replies, silence, session changes, inserts that take 0..2 scheduling points after the "
+    "row was accepted); after a reference run the history is repeated once per suspension point of one task, which is cancelled exactly there: "
+    "while it is queued behind another task's exchange, woken by the task that finished its exchange but not yet run (cancelled by that task within "
+    "the same step, also by ECU.stop_cyclic_tester_present() right after a caller's request returned, as UDSScanner.teardown does), during its write, "
+    "between write and read, while it awaits the reply, between ResponsePending replies, during the insert, between requests. Rows of every run must "
+    "be exactly the requests the transport saw, in that order, and none for a request that never reached the transport. "
+    "Held = every row set read back matched its wire log."
 )
 LEVEL_NOTE = (
     "Trusted: scripted transport vf/dbharness.py (wire log), request generators vf/gen_uds.py, response generators vf/checks/c02.py / "
@@ -43,7 +54,10 @@ RULE = (
     "history seeds; distinct_traces = distinct (outcome class, logging, tag, crash) sequences; evaluations = rows compared. Writer-fault "
     "histories: the same generators without crash point x fault plan (rows x failures in a row x scheduling points before the failure) x "
     "pacing x how soon disconnect() follows. Scanner runs: seeded options (ping / ECUReset / properties requests / background tester present) "
-    "x main() scripts with logging toggles, each run twice (logging off / on from the constructor); non-trivial = logging toggled between requests"
+    "x main() scripts with logging toggles, each run twice (logging off / on from the constructor); non-trivial = logging toggled between requests. "
+    "Concurrent users with cancellation: seeded histories (tasks x requests x durations x insert duration x worker on/off) x every suspension point of "
+    "the chosen task (cancelled while suspended there, and - where another task's step ends the wait - by that task within that step) x, for the worker, "
+    "every caller request after which stop_cyclic_tester_present() is called; non-trivial = at least one cancellation run"
 )
 ASSUMPTIONS = [
     "a request() whose write was attempted counts as put on the wire; retries belong to their exchange (one row, final outcome)",
@@ -58,7 +72,16 @@ ASSUMPTIONS = [
     "a disconnect() that does not return within 60 s wall clock is reported as a harness error (INCONCLUSIVE), not as a violation",
     "scanner runs: gallia.plugins.plugin.load_transport and gallia.command.uds.load_ecu are replaced by harness loaders (in-process transport; "
     "ECU subclass whose properties() sends ReadDataByIdentifier requests); whether logging was wanted for a request is the harness scanner's "
-    "own note at the time the transport saw the write and the read; a request in flight while the preference changes may or may not have a row",
+    "own note at the time the transport saw the write and the read; a request in flight while the preference changes may or may not have a row; "
+    "rows being in transmission order, a surplus row is attributed to an exchange sent while logging was off only if the transport saw such an exchange "
+    "between the recorded exchanges around it, otherwise it is a row for a request that was not on the wire there",
+    "concurrent users with cancellation: the transport logs a request when write() is entered (first assumption); a request whose caller was cancelled "
+    "before that was never put on the wire and must have no row; a request that was written and then cancelled was put on the wire and has its row "
+    "(here the run goes on, only one user is cancelled), with NULL reply when no final reply had been delivered; its exception column is not judged",
+    "concurrent users with cancellation: the cyclic tester present worker runs with interval 0 (its sleep is a bare scheduling point) so that no clock "
+    "decides the interleaving; the scheduling points of an insert come after DBHandler.insert_scan_result has returned (wrapper on the handler "
+    "instance); PRAGMA synchronous=OFF on the handler's connection (durability across power loss is not judged); session-changing requests only in "
+    "histories whose inserts take no scheduling point; the state column is compared with ECU.state as it was when the transport saw the write",
 ]
 EXHAUSTIVE = {"quick": False, "thorough": False}
 EXHAUSTIVE_NOTE = ""
@@ -71,9 +94,11 @@ DTC_DICT_SF = iso.DTC_LIST_SF
 def shards(tier: str, seed: int) -> list[dict[str, Any]]:
     if tier == "quick":
         return ([{"mode": "hist", "base": f"q{seed}-{i}", "n": 260} for i in range(12)] + [{"mode": "conc", "base": f"qc{seed}-{i}", "n": 60} for i in range(2)]
-                + [{"mode": "wf", "base": f"qw{seed}-{i}", "n": 100} for i in range(4)] + [{"mode": "scan", "base": f"qs{seed}-{i}", "n": 12} for i in range(2)])
+                + [{"mode": "wf", "base": f"qw{seed}-{i}", "n": 100} for i in range(4)] + [{"mode": "scan", "base": f"qs{seed}-{i}", "n": 12} for i in range(2)]
+                + [{"mode": "cc", "base": f"qx{seed}-{i}", "n": 50} for i in range(2)])
     return ([{"mode": "hist", "base": f"t{seed}-{i}", "n": 3000} for i in range(14)] + [{"mode": "conc", "base": f"tc{seed}-{i}", "n": 1000} for i in range(2)]
-            + [{"mode": "wf", "base": f"tw{seed}-{i}", "n": 3000} for i in range(4)] + [{"mode": "scan", "base": f"ts{seed}-{i}", "n": 160} for i in range(2)])
+            + [{"mode": "wf", "base": f"tw{seed}-{i}", "n": 3000} for i in range(4)] + [{"mode": "scan", "base": f"ts{seed}-{i}", "n": 160} for i in range(2)]
+            + [{"mode": "cc", "base": f"tx{seed}-{i}", "n": 600} for i in range(4)])
 
 
 def required_reach(tier: str) -> dict[str, int]:
@@ -99,6 +124,15 @@ def required_reach(tier: str) -> dict[str, int]:
         "scanner.setup-requests.while-logging-off": 12 * k, "scanner.setup-request-recorded.logging-on-from-the-start": 12 * k,
         "scanner.logging-toggled-between-requests": 30 * k, "scanner.main-requests.while-logging-on": 30 * k,
         "scanner.main-requests.while-logging-off": 30 * k, "scanner.rows-compared": 100 * k, "#scanner.setup-source:": 3,
+        # concurrent users of one ECU object, one cancelled at every suspension point
+        "conc-cancel.histories": 60 * k, "conc-cancel.runs": 1000 * k, "conc-cancel.rows-compared": 5000 * k, "#conc-cancel.tasks:": 3,
+        "conc-cancel.histories-with-tester-present-worker": 20 * k, "conc-cancel.request-never-transmitted": 100 * k,
+        "conc-cancel.interrupted-exchange-recorded": 200 * k,
+        "cancel.while-queued": 60 * k, "cancel.woken-not-run": 60 * k, "cancel.issued-by-the-task-that-woke-the-victim-within-the-same-step": 50 * k,
+        "cancel.mid-exchange": 200 * k, "cancel.mid-exchange.during-write": 50 * k, "cancel.mid-exchange.between-write-and-read": 50 * k,
+        "cancel.mid-exchange.awaiting-reply": 40 * k, "cancel.mid-exchange.pending-read": 40 * k, "cancel.during-db-insert": 40 * k,
+        "cancel.between-requests": 50 * k, "cancel.worker.while-queued": 30 * k, "cancel.worker.woken-not-run": 25 * k,
+        "cancel.worker.stopped-by-a-user-right-after-its-request.woken-not-run": 8 * k,
     }
 
 
@@ -833,6 +867,475 @@ async def run_concurrent(ctx: Any, hseed: str, path: Any, catch: dh.Catcher) -> 
             ctx.violation("time/send-after-receive", "request_time is later than response_time", w0 | {"request": q})
 
 
+# ---- concurrent users of one ECU object, one of them cancelled at every suspension point ------------------------------
+# Nothing in this family waits for the clock: the transport, the users and (with interval 0) the cyclic tester present worker only
+# give up control with bare scheduling points or wait for each other, so the order in which tasks run is the event loop's FIFO order
+# and the same for every run of one history.  Every task created while a run is going on is driven through a wrapper that counts its
+# suspension points; a first run without cancellation yields the number of suspension points of the task to be cancelled, and then
+# the history is run again once per suspension point (and once more per suspension point that another task's step ends).
+CC_GUARD_S = 30.0  # wall-clock guard around one run (a run takes milliseconds; an expired guard is a harness error)
+
+
+class Stepped(collections.abc.Coroutine):  # type: ignore[type-arg]
+    """Stands between a task and its coroutine: one send()/throw() is one step of the task, the value it hands back is what the
+    task is suspended on (a future, or None for a bare scheduling point)."""
+
+    def __init__(self, coro: Any, hub: StepHub, ident: str) -> None:
+        self.coro, self.hub, self.ident = coro, hub, ident
+        self.yields = 0  # suspension points reached so far
+        self.waiting: Any = None
+        self.suspended = False
+        self.woken = False
+        self.task: Any = None
+
+    def send(self, value: Any) -> Any:
+        return self._step(self.coro.send, value)
+
+    def throw(self, *a: Any) -> Any:
+        return self._step(self.coro.throw, *a)
+
+    def close(self) -> None:
+        self.coro.close()
+
+    def __await__(self) -> Any:
+        return self.coro.__await__()
+
+    def __getattr__(self, name: str) -> Any:  # cr_frame, cr_code, __qualname__ ... for reprs
+        return getattr(self.coro, name)
+
+    def _step(self, fn: Any, *a: Any) -> Any:
+        hub = self.hub
+        prev, hub.current = hub.current, self
+        self.suspended = self.woken = False
+        self.waiting = None
+        try:
+            y = fn(*a)
+        except BaseException:
+            hub.current = prev
+            hub.after_step(self, ended=True)
+            raise
+        hub.current = prev
+        self.yields += 1
+        self.waiting, self.suspended = y, True
+        hub.after_step(self, ended=False)
+        return y
+
+
+class StepHub:
+    """Task factory + the one planned cancellation of a run.
+    plan: None | ("early", ident, k): the task is cancelled the moment it reaches its k-th suspension point (it is still waiting)
+               | ("late", ident, k): it is cancelled by the task whose step completes what it waits for at its k-th suspension
+                 point, within that step (woken, not yet run)
+               | ("stop-after", user, index): that user calls ECU.stop_cyclic_tester_present() right after its request returned."""
+
+    def __init__(self, plan: tuple[Any, ...] | None, classify: Any) -> None:
+        self.plan, self.classify = plan, classify
+        self.current: Stepped | None = None
+        self.steppers: dict[str, Stepped] = {}
+        self.by_task: dict[Any, Stepped] = {}
+        self.next_ident: str | None = None
+        self.schedule: list[tuple[str, int]] = []
+        self.latecap: dict[str, list[int]] = {}
+        self.fired: dict[str, Any] | None = None
+
+    def factory(self, loop: Any, coro: Any, **kw: Any) -> Any:
+        ident, self.next_ident = self.next_ident or f"bg{len(self.steppers)}", None
+        s = Stepped(coro, self, ident)
+        t = asyncio.Task(s, loop=loop, **kw)
+        s.task = t
+        self.steppers[ident] = s
+        self.by_task[t] = s
+        self.latecap[ident] = []
+        return t
+
+    def after_step(self, s: Stepped, ended: bool) -> None:
+        self.schedule.append((s.ident, -1 if ended else s.yields))
+        for o in self.steppers.values():
+            if o is not s and o.suspended and not o.woken and asyncio.isfuture(o.waiting) and o.waiting.done() and not o.waiting.cancelled():
+                o.woken = True
+                self.latecap[o.ident].append(o.yields)
+                if self.plan is not None and self.plan[0] == "late" and self.plan[1:] == (o.ident, o.yields) and self.fired is None:
+                    self.fire(o, "late", s.ident)
+        if not ended and self.plan is not None and self.plan[0] == "early" and self.plan[1:] == (s.ident, s.yields) and self.fired is None:
+            self.fire(s, "early", s.ident)
+
+    def fire(self, victim: Stepped, how: str, by: str) -> None:
+        self.fired = {"victim": victim.ident, "how": how, "by": by, "at_step": len(self.schedule)} | self.classify(victim, how)
+        victim.task.cancel()
+
+
+class StepTransport(dh.BaseTransport, scheme="vfstep"):  # type: ignore[call-arg,misc]
+    """In-process transport without a clock.  write() logs the request (the write was attempted: the request counts as put on
+    the wire) together with the client's view of the ECU state at that moment and takes `wy` scheduling points; the j-th read of
+    an exchange takes lat[j] scheduling points and then delivers replies[j] (ResponsePending ... final), or raises TimeoutError
+    when the script has no further reply.  `phase` of an entry says where its exchange is."""
+
+    def __init__(self, hub: StepHub, scripts: Any) -> None:
+        super().__init__(dh.TargetURI("tcp-lines://127.0.0.1:1"))
+        self.hub, self.scripts = hub, scripts
+        self.log: list[dict[str, Any]] = []
+        self.cur: dict[str, Any] | None = None
+        self.ecu: Any = None
+        self.open_call: dict[str, dict[str, Any]] = {}
+        self.overlap = 0
+
+    @classmethod
+    async def connect(cls, target: Any, timeout: float | None = None) -> StepTransport:
+        raise NotImplementedError
+
+    async def close(self) -> None:
+        self.is_closed = True
+
+    async def reconnect(self, timeout: float | None = None) -> StepTransport:
+        return self
+
+    async def write(self, data: bytes, timeout: float | None = None, tags: list[str] | None = None) -> int:
+        who = self.hub.current.ident if self.hub.current is not None else "?"
+        if self.cur is not None and not self.cur["ended"] and not self.cur["cut"]:
+            self.overlap += 1  # two exchanges at once: the business of C05, noted only
+        sc = self.scripts(bytes(data), sum(1 for e in self.log if e["q"] == bytes(data)))
+        e = {"q": bytes(data), "who": who, "replies": [], "final": None, "ended": False, "cut": False, "phase": "during-write", "reads": 0,
+             "script": sc, "state": dict(self.ecu.state.__dict__), "tags": list(tags or [])}
+        call = self.open_call.get(who)
+        if call is not None and call["tx"] is None:
+            call["tx"] = len(self.log)
+        self.log.append(e)
+        self.cur = e
+        for _ in range(sc["wy"]):
+            await asyncio.sleep(0)
+        e["phase"] = "between-write-and-read"
+        return len(data)
+
+    async def read(self, timeout: float | None = None, tags: list[str] | None = None) -> bytes:
+        e = self.cur
+        assert e is not None
+        j = e["reads"]
+        e["reads"] += 1
+        lat = e["script"]["lat"]
+        for n in range(lat[j] if j < len(lat) else 1):
+            if not (j == 0 and n == 0):
+                e["phase"] = "awaiting-reply" if not e["replies"] else "pending-read"
+            await asyncio.sleep(0)
+        if j >= len(e["script"]["replies"]):
+            e["ended"], e["phase"] = True, "ended"
+            raise TimeoutError("no reply")
+        r = e["script"]["replies"][j]
+        e["replies"].append(r)
+        if r[:1] == b"\x7f" and r[2:3] == b"\x78":
+            e["phase"] = "pending-read"
+        else:
+            e["final"], e["ended"], e["phase"] = r, True, "ended"
+        return bytes(r)
+
+
+def gen_cc(hseed: str) -> dict[str, Any]:
+    rng = random.Random("cc/" + hseed)
+    worker = rng.random() < 0.55
+    users = rng.choice([1, 2, 2, 3]) if worker else rng.choice([2, 2, 3, 3, 4])
+    iy = rng.choice([0, 0, 0, 1, 2])  # scheduling points a row's insert takes after the handler accepted the row
+    state_changes = iy == 0 and rng.random() < 0.6
+
+    def script(sid: int, kind: str) -> dict[str, Any]:
+        pend = rng.choice([0, 0, 0, 1, 2]) if kind != "silence" else 0
+        lat = [rng.choice([0, 1, 1, 2, 3])] + [rng.choice([1, 1, 2]) for _ in range(pend)]
+        return {"wy": rng.choice([0, 0, 1, 2]), "lat": lat, "pend": pend, "kind": kind, "sid": sid}
+
+    plan: list[list[dict[str, Any]]] = []
+    for u in range(users):
+        reqs = []
+        for i in range(rng.randint(1, 3)):
+            k = rng.random()
+            kind = "dsc" if state_changes and k < 0.25 else "negative" if k < 0.37 else "silence" if k < 0.47 else "positive"
+            req = {"u": u, "i": i, "pre": rng.randrange(3), "tag": rng.random() < 0.25, "session": rng.choice([1, 2, 3, 0x40 + u])}
+            reqs.append(req | script(0x10 if kind == "dsc" else 0x22, kind))
+        plan.append(reqs)
+    tp = [script(0x3E, "positive" if rng.random() < 0.85 else "silence") for _ in range(5)]
+    victim = "tp" if worker and rng.random() < 0.5 else f"u{rng.randrange(users)}"
+    return {"hseed": hseed, "users": users, "worker": worker, "worker_first": rng.random() < 0.5, "iy": iy, "plan": plan, "tp": tp, "victim": victim}
+
+
+def cc_pdu(r: dict[str, Any]) -> bytes:
+    return bytes([0x10, r["session"]]) if r["kind"] == "dsc" else bytes([0x22, r["u"] + 1, r["i"]])
+
+
+def cc_replies(q: bytes, sc: dict[str, Any]) -> list[bytes]:
+    out = [bytes([0x7F, q[0], 0x78])] * sc["pend"]
+    if sc["kind"] == "silence":
+        return out
+    if sc["kind"] == "negative":
+        return out + [bytes([0x7F, q[0], 0x31])]
+    if q[0] == 0x10:
+        return out + [bytes([0x50, q[1], 0, 50, 1, 244])]
+    if q[0] == 0x3E:
+        return out + [b"\x7e\x00"]
+    return out + [b"\x62" + q[1:3] + q[1:3]]
+
+
+async def cc_run(spec: dict[str, Any], handler: Any, plan: tuple[Any, ...] | None, catch: dh.Catcher) -> dict[str, Any]:
+    """one run of the history on a scan run of its own; -> what the harness saw (wire, calls, cancellation, task steps)"""
+    from gallia.services.uds.core import service
+    from gallia.services.uds.core.client import UDSRequestConfig
+    from gallia.services.uds.ecu import ECU
+
+    by_pdu = {cc_pdu(r): r for reqs in spec["plan"] for r in reqs}
+
+    def scripts(q: bytes, nth: int) -> dict[str, Any]:
+        sc = by_pdu.get(q) or spec["tp"][nth % len(spec["tp"])]
+        return sc | {"replies": cc_replies(q, sc)}
+
+    calls: list[dict[str, Any]] = []
+    inserting: set[str] = set()
+
+    def classify(victim: Stepped, how: str) -> dict[str, Any]:
+        """where the task is at the moment it is cancelled - from what the harness saw: its open request() call, whether the
+        transport has seen that request, and where the transport is with it"""
+        call = tr.open_call.get(victim.ident)
+        if call is None:
+            return {"where": "between-requests", "request": None}
+        w: dict[str, Any] = {"request": call["pdu"].hex(), "call": call["n"]}
+        if call["tx"] is None:
+            other = tr.cur is not None and not tr.cur["ended"] and not tr.cur["cut"]
+            if how == "late":
+                return w | {"where": "woken-not-run"}
+            return w | {"where": "while-queued", "behind": tr.cur["q"].hex() if other and tr.cur else None}
+        e = tr.log[call["tx"]]
+        if victim.ident in inserting:
+            return w | {"where": "during-db-insert"}
+        if e["ended"]:
+            return w | {"where": "after-the-exchange"}
+        e["cut"] = True
+        return w | {"where": "mid-exchange", "phase": e["phase"], "pending_replies_read": len(e["replies"])}
+
+    hub = StepHub(plan, classify)
+    tr = StepTransport(hub, scripts)
+
+    class CCECU(ECU):
+        async def request(self, request: Any, config: Any = None) -> Any:  # type: ignore[override]
+            who = hub.current.ident if hub.current is not None else "?"
+            call = {"n": len(calls), "who": who, "pdu": bytes(request.pdu), "tx": None, "open": True}
+            calls.append(call)
+            tr.open_call[who] = call
+            try:
+                return await super().request(request, config)
+            finally:
+                call["open"] = False
+                if tr.open_call.get(who) is call:
+                    del tr.open_call[who]
+
+    ecu = CCECU(tr, timeout=0.05, max_retry=0)
+    ecu.retry_wait = 0.0
+    ecu.db_handler = handler
+    tr.ecu = ecu
+    await dh.guarded(handler.insert_scan_run(f"vf://c11cc/{spec['hseed']}/{'-'.join(map(str, plan)) if plan else 'reference'}"), "insert_scan_run")
+    run_id = handler.scan_run
+    catch.take_lost()
+    orig_insert = handler.insert_scan_result
+
+    async def insert_scan_result(*a: Any, **kw: Any) -> Any:
+        r = await orig_insert(*a, **kw)
+        who = hub.current.ident if hub.current is not None else "?"
+        inserting.add(who)
+        try:
+            for _ in range(spec["iy"]):
+                await asyncio.sleep(0)
+        finally:
+            inserting.discard(who)
+        return r
+
+    async def user(u: int) -> None:
+        for r in spec["plan"][u]:
+            for _ in range(r["pre"]):
+                await asyncio.sleep(0)
+            req = service.DiagnosticSessionControlRequest(r["session"]) if r["kind"] == "dsc" else service.ReadDataByIdentifierRequest(((u + 1) << 8) | r["i"])
+            try:
+                await ecu.request(req, UDSRequestConfig(tags=["ANALYZE"]) if r["tag"] else None)
+            except Exception:  # noqa: BLE001
+                pass
+            if plan is not None and plan[0] == "stop-after" and plan[1:] == (u, r["i"]) and ecu.tester_present_task is not None:
+                w = hub.by_task.get(ecu.tester_present_task)
+                if w is not None and not w.task.done():
+                    how = "late" if w.suspended and asyncio.isfuture(w.waiting) and w.waiting.done() and not w.waiting.cancelled() else "early"
+                    hub.fired = {"victim": "tp", "how": how, "by": f"u{u}", "stopped_by_user": True, "at_step": len(hub.schedule)} | classify(w, how)
+                await ecu.stop_cyclic_tester_present()
+
+    async def start_worker() -> None:
+        hub.next_ident = "tp"  # the one task start_cyclic_tester_present() creates
+        await ecu.start_cyclic_tester_present(0)  # interval 0: the worker's sleep is a bare scheduling point
+        assert hub.by_task[ecu.tester_present_task].ident == "tp"
+
+    final_stop: dict[str, Any] = {}
+    loop = asyncio.get_running_loop()
+    handler.insert_scan_result = insert_scan_result  # instance attribute: this handler only
+    loop.set_task_factory(hub.factory)
+    tasks: list[Any] = []
+    try:
+        if spec["worker"] and spec["worker_first"]:
+            await start_worker()
+        for u in range(spec["users"]):
+            hub.next_ident = f"u{u}"
+            tasks.append(loop.create_task(user(u)))
+        if spec["worker"] and not spec["worker_first"]:
+            await start_worker()
+        done, pending = await asyncio.wait(tasks, timeout=CC_GUARD_S)
+        if pending:
+            for t in pending:
+                t.cancel()
+            raise RuntimeError(f"concurrent-cancel run {spec['hseed']} plan={plan} did not finish: schedule tail {hub.schedule[-12:]}")
+        if spec["worker"] and ecu.tester_present_task is not None and not ecu.tester_present_task.done():
+            # the end of the run (as UDSScanner.teardown does); an exchange of the worker that is under way is cut off here
+            w = hub.by_task[ecu.tester_present_task]
+            final_stop.update(classify(w, "late" if w.suspended and asyncio.isfuture(w.waiting) and w.waiting.done() else "early"))
+            await asyncio.wait_for(ecu.stop_cyclic_tester_present(), CC_GUARD_S)
+        for t in done:
+            if not t.cancelled() and t.exception() is not None:
+                raise RuntimeError(f"concurrent-cancel user task failed: {t.exception()!r}")
+    finally:
+        loop.set_task_factory(None)
+        del handler.insert_scan_result
+    return {"plan": plan, "run": run_id, "wire": tr.log, "calls": calls, "fired": hub.fired, "lost": catch.take_lost(), "overlap": tr.overlap,
+            "yields": {k: s.yields for k, s in hub.steppers.items()}, "latecap": hub.latecap, "schedule": hub.schedule, "final_stop": final_stop}
+
+
+async def run_cc(ctx: Any, hseed: str, path: Any, catch: dh.Catcher) -> None:
+    spec = gen_cc(hseed)
+    handler = await dh.open_handler(path, "vf://c11cc/" + hseed)
+    runs: list[dict[str, Any]] = []
+    try:
+        # harness configuration: one history writes a few thousand rows, each committed on its own; no fsync per commit
+        # (what the file holds after a power loss is not judged, what it holds after disconnect() is)
+        await dh.guarded(handler.connection.execute("PRAGMA synchronous = OFF"), "connection.execute")
+        ref = await cc_run(spec, handler, None, catch)
+        runs.append(ref)
+        v = spec["victim"]
+        plans: list[tuple[Any, ...]] = [("early", v, k) for k in range(1, ref["yields"].get(v, 0) + 1)] + [("late", v, k) for k in sorted(set(ref["latecap"].get(v, [])))]
+        if v == "tp":
+            plans += [("stop-after", r["u"], r["i"]) for reqs in spec["plan"] for r in reqs]
+        for p in plans:
+            runs.append(await cc_run(spec, handler, p, catch))
+    finally:
+        await dh.close_handler(handler, DISCONNECT_GUARD_S)
+    stray = catch.take_lost()
+    rows = dh.read_rows(path)
+    ctx.reach("conc-cancel.histories")
+    ctx.reach(f"conc-cancel.tasks:{spec['users'] + int(spec['worker'])}")
+    if spec["worker"]:
+        ctx.reach("conc-cancel.histories-with-tester-present-worker")
+    if stray:
+        ctx.violation("warning/outside-any-exchange", "'Could not log messages to database' outside a request", {"family": "concurrent-cancel", "hseed": hseed, "warnings": stray})
+    known = {r["run"] for r in runs}
+    if any(row["run"] not in known for row in rows):
+        ctx.violation("row/wrong-run/concurrent-cancel", "a row belongs to no scan run of this handler", {"family": "concurrent-cancel", "hseed": hseed})
+    ctx.case(hseed, nontrivial=len(runs) > 1, n=0)
+    for r in runs:
+        judge_cc(ctx, spec, ref, r, [row for row in rows if row["run"] == r["run"]])
+
+
+def judge_cc(ctx: Any, spec: dict[str, Any], ref: dict[str, Any], r: dict[str, Any], rows: list[dict[str, Any]]) -> None:
+    import difflib
+
+    wire, fired, plan = r["wire"], r["fired"], r["plan"]
+    ctx.reach("conc-cancel.runs")
+    w0 = {"family": "concurrent-cancel", "hseed": spec["hseed"], "tasks": spec["users"] + int(spec["worker"]), "worker": spec["worker"], "insert_yields": spec["iy"],
+          "plan": list(plan) if plan else None, "cancel": fired,
+          "wire": [[e["who"], e["q"].hex(), [x.hex() for x in e["replies"]], "ended" if e["ended"] else "cut:" + e["phase"]] for e in wire][:40],
+          "calls": [[c["who"], c["pdu"].hex(), "transmitted" if c["tx"] is not None else "never transmitted"] for c in r["calls"]][:40],
+          "rows": [[x["id"], x["request_pdu"] if isinstance(x["request_pdu"], str) else repr(x["request_pdu"]), x["response_pdu"], x["exception"]] for x in rows][:40]}
+    where = "none"
+    if fired is not None:
+        where = fired["where"]
+        worker = ".worker" if fired["victim"] == "tp" else ""
+        ctx.reach(f"cancel.{where}")
+        if worker:
+            ctx.reach(f"cancel.worker.{where}")
+        if where == "mid-exchange":
+            ctx.reach(f"cancel.mid-exchange.{fired['phase']}")
+        if fired.get("stopped_by_user"):
+            ctx.reach("cancel.worker.stopped-by-a-user-right-after-its-request")
+            ctx.reach(f"cancel.worker.stopped-by-a-user-right-after-its-request.{where}")
+        if fired["how"] == "late" and fired["by"] not in (fired["victim"], "?"):
+            ctx.reach("cancel.issued-by-the-task-that-woke-the-victim-within-the-same-step")
+        # the run is the reference run up to the cancellation (no clock anywhere: a difference means the harness is not deterministic)
+        n = max(0, fired["at_step"] - 1)
+        if r["schedule"][:n] != ref["schedule"][:n]:
+            ctx.reach("conc-cancel.prefix-differs-from-reference-run")
+    elif plan is not None:
+        ctx.reach("conc-cancel.planned-cancellation-not-reached")
+    if r["overlap"]:
+        ctx.reach("conc-cancel.exchanges-overlapped-on-the-transport")
+    if r["lost"]:
+        ctx.violation("row-lost/concurrent-cancel", "'Could not log messages to database' with several users of one ECU object", w0 | {"warnings": r["lost"][:3]})
+    ctx.trace(("cc", tuple((e["who"], e["q"][0], len(e["replies"]), e["ended"]) for e in wire), where, fired["how"] if fired else None))
+
+    never = [c for c in r["calls"] if c["tx"] is None]
+    if never:
+        ctx.reach("conc-cancel.request-never-transmitted")
+    want = [e["q"] for e in wire]
+    got = [dh.unhex(x["request_pdu"]) or b"" for x in rows]
+    pairs: list[tuple[dict[str, Any], dict[str, Any]]] = []
+    if got == want:
+        pairs = list(zip(wire, rows))
+    elif len(got) == len(want) and sorted(got) == sorted(want):
+        ctx.violation("rows/out-of-transmission-order/concurrent-cancel", "rows are not in transmission order", w0)
+        return
+    else:
+        sm = difflib.SequenceMatcher(a=want, b=got, autojunk=False)
+        for op, i1, i2, j1, j2 in sm.get_opcodes():
+            if op == "equal":
+                # rows are surplus or missing: the alignment of identical requests (tester present) is a guess, their fields are not judged
+                pairs += [(e, row) for e, row in zip(wire[i1:i2], rows[j1:j2]) if want.count(e["q"]) == 1 and got.count(e["q"]) == 1]
+                continue
+            for e in wire[i1:i2]:
+                if e["cut"]:
+                    ctx.violation(f"row-missing/concurrent-cancel/interrupted-exchange/{e['phase']}",
+                                  "a request that was put on the wire and then cancelled has no row", w0 | {"request": e["q"].hex()})
+                else:
+                    ctx.violation("row-missing/concurrent-cancel/completed-exchange" + (f"/cancelled-{where}" if where == "during-db-insert" and fired and e["who"] == fired["victim"] else ""),
+                                  "a completed exchange has no row", w0 | {"request": e["q"].hex()})
+            for j in range(j1, j2):
+                nt = [c for c in never if c["pdu"] == got[j]]
+                if nt:
+                    how = {"while-queued": "cancelled-while-queued", "woken-not-run": "cancelled-woken-not-run"}.get(where, "other") if fired and nt[0]["who"] == fired["victim"] else "other"
+                    ctx.violation(f"row-extra/request-never-transmitted/{how}", "a row exists for a request that was never put on the wire (its caller was cancelled while it waited for another exchange)",
+                                  w0 | {"row": [rows[j]["id"], got[j].hex(), rows[j]["response_pdu"], rows[j]["exception"]], "row_position": j})
+                elif got[j] in want:
+                    ctx.violation("row-extra/concurrent-cancel/duplicate", "a request was recorded twice", w0 | {"row": [rows[j]["id"], got[j].hex()]})
+                else:
+                    ctx.violation("row-extra/concurrent-cancel/unknown-request", "a row exists for a request the transport never saw", w0 | {"row": [rows[j]["id"], got[j].hex()]})
+    for e, row in pairs:
+        ctx.evals()
+        ctx.reach("conc-cancel.rows-compared")
+        wd = w0 | {"request": e["q"].hex(), "row": {k: row[k] for k in ("id", "log_mode", "state", "request_pdu", "response_pdu", "exception")}}
+        have = dh.unhex(row["response_pdu"])
+        if e["cut"]:
+            ctx.reach("conc-cancel.interrupted-exchange-recorded")
+            if have is not None:
+                ctx.violation("row/interrupted-exchange-has-reply/concurrent-cancel", "the row of an exchange cancelled before its final reply carries a reply", wd)
+            if row["exception"] is not None:
+                ctx.reach("conc-cancel.interrupted-exchange-recorded-with-exception")
+        else:
+            if have != e["final"]:
+                ctx.violation("response_pdu/differs/concurrent-cancel", "row carries another reply than the one delivered for this request", wd | {"delivered": e["final"]})
+            if (row["exception"] is None) != (e["final"] is not None):
+                ctx.violation("exception/" + ("unexpected" if e["final"] is not None else "missing") + "/concurrent-cancel", "exception column does not match the outcome of the request", wd)
+            if row["response_time"] is None and have is not None:
+                ctx.violation("response_time/null-although-reply-recorded/concurrent-cancel", "the row holds a reply but no receive time", wd)
+        if row["response_time"] is not None and row["request_time"] > row["response_time"]:
+            ctx.violation("time/send-after-receive", "request_time is later than response_time", wd)
+        try:
+            st = json.loads(row["state"])
+        except (TypeError, ValueError):
+            st = None
+        if st != e["state"]:
+            ctx.violation("state/not-the-view-before-the-request/concurrent-cancel", "state column is not the client's view of the ECU when the request was written", wd | {"state_at_write": e["state"]})
+        if e["state"]["session"] != 1:
+            ctx.reach("conc-cancel.non-default-state-row")
+        want_mode = "emphasized" if "ANALYZE" in e["tags"] else "implicit"
+        if row["log_mode"] != want_mode:
+            ctx.violation(f"log_mode/{row['log_mode']}-instead-of-{want_mode}/concurrent-cancel", "log_mode is not what the request asked for", wd)
+    if fired is not None and ctx.rng.random() < 0.01:
+        ctx.sample(w0)
+
+
 # ---- scanner runs: the command layer hands the scanner's implicit-logging preference to the client ---------------------
 _SCAN: dict[str, Any] = {}
 SCAN_GUARD_S = 90.0  # wall-clock guard around one batch of entry_point() runs
@@ -1088,10 +1591,19 @@ def judge_scan(ctx: Any, r: dict[str, Any], rows: list[dict[str, Any]]) -> None:
             if [wire[i]["q"] for i in on] == got:
                 chosen = on
                 break
+    if chosen is None and len(undecided) <= 6:
+        # the right rows in another order: an order violation, not surplus and missing rows
+        for pick in itertools.product([False, True], repeat=len(undecided)):
+            on = [i for i, s in enumerate(sure) if s or (s is None and pick[undecided.index(i)])]
+            if sorted(wire[i]["q"] for i in on) == sorted(got):
+                ctx.violation("rows/out-of-transmission-order/scanner-run", "rows of a scanner run are not in transmission order",
+                              w0 | {"wire_order": [wire[i]["q"].hex() for i in on][:60]})
+                return
     if chosen is None:
         on = [i for i, s in enumerate(sure) if s]
         want = [wire[i]["q"] for i in on]
         sm = difflib.SequenceMatcher(a=want, b=got, autojunk=False)
+        taken: set[int] = set()
         for op, i1, i2, j1, j2 in sm.get_opcodes():
             if op == "equal":
                 continue
@@ -1099,20 +1611,32 @@ def judge_scan(ctx: Any, r: dict[str, Any], rows: list[dict[str, Any]]) -> None:
                 e = wire[on[i]]
                 ctx.violation(f"row-missing/scanner-run/{e['at_write'][0]}-traffic-while-implicit-logging-on",
                               "a request the scanner sent with implicit logging switched on has no row", w0 | {"request": e["q"].hex(), "wire_index": on[i]})
-            lo = on[i1 - 1] if i1 > 0 else -1
-            hi = on[i2] if i2 < len(on) else len(wire)
             for j in range(j1, j2):
-                near = [k for k in range(lo + 1, hi) if wire[k]["q"] == got[j] and not sure[k]]
-                anyw = [k for k in range(len(wire)) if wire[k]["q"] == got[j] and not sure[k]]
-                k = (near or anyw or [None])[0]
+                # rows are in transmission order: a surplus row can only stand for an exchange the transport saw between the recorded
+                # exchanges around it. Each such exchange (sent while logging was off or undecided) accounts for one surplus row; a row
+                # beyond that was never on the wire there, however often the same bytes were sent elsewhere (tester present)
+                a, b = i1, i2  # recorded exchanges with the very same bytes next to the gap are interchangeable in the alignment: look past them
+                while a > 0 and want[a - 1] == got[j]:
+                    a -= 1
+                while b < len(on) and want[b] == got[j]:
+                    b += 1
+                lo, hi = (on[a - 1] if a > 0 else -1), (on[b] if b < len(on) else len(wire))
+                near = [k for k in range(lo + 1, hi) if wire[k]["q"] == got[j] and not sure[k] and k not in taken]
+                anyw = [k for k in range(len(wire)) if wire[k]["q"] == got[j] and not sure[k] and k not in taken]
+                k = near[0] if near else None
                 if k is not None:
+                    taken.add(k)
                     key = f"row-extra/{wire[k]['at_write'][0]}-traffic-while-implicit-logging-off"
                     what = "a request sent while the scanner had implicit logging switched off was recorded"
+                elif anyw:
+                    key = "row-extra/request-never-transmitted/scanner-run"
+                    what = ("a row exists for a request the transport did not see at that position (the same bytes were sent elsewhere while logging was off: "
+                            "with rows in transmission order that exchange cannot account for this row)")
                 elif got[j] in want:
                     key, what = "row-extra/scanner-run/duplicate", "a request was recorded twice"
                 else:
                     key, what = "row-extra/scanner-run/unknown-request", "a row exists for a request the transport never saw"
-                ctx.violation(key, what, w0 | {"row": [rows[j]["id"], got[j].hex(), rows[j]["log_mode"]], "wire_index": k})
+                ctx.violation(key, what, w0 | {"row": [rows[j]["id"], got[j].hex(), rows[j]["log_mode"]], "wire_index": k, "between_wire_indices": [lo, hi]})
         return
     for i, row in zip(chosen, rows):
         e = wire[i]
@@ -1167,6 +1691,8 @@ async def arun(ctx: Any, params: dict[str, Any], only: str | None = None) -> Non
         try:
             if params["mode"] == "conc":
                 await run_concurrent(ctx, hseed, path, catch)
+            elif params["mode"] == "cc":
+                await run_cc(ctx, hseed, path, catch)
             elif params["mode"] == "wf":
                 await run_history(ctx, gen_wf_history(hseed), path, catch)
             else:
@@ -1187,5 +1713,5 @@ def run(ctx: Any, params: dict[str, Any]) -> None:
 def replay(ctx: Any, witness: dict[str, Any]) -> None:
     import gallia.command  # noqa: F401
 
-    mode = {"concurrent": "conc", "writer-faults": "wf", "scanner": "scan"}.get(witness.get("family"), "hist")
+    mode = {"concurrent": "conc", "concurrent-cancel": "cc", "writer-faults": "wf", "scanner": "scan"}.get(witness.get("family"), "hist")
     asyncio.run(arun(ctx, {"mode": mode}, only=witness["hseed"]))
